@@ -150,6 +150,7 @@ CODEC = ["C01", "C02", "C06", "C08", "C09", "C10", "C16", "C17", "C20"]
 
 # (id, properties that must stay at exit 0, edits)  -- behaviour-preserving refactors
 SILENT: List[Tuple[str, List[str], List[Any]]] = [
+    ("duration-floor-split-with-fixup", ["C15", "C01", "C02"], [(I, "        seconds, us = divmod(abs(total_us), 10**6)\n        if total_us < 0:\n            seconds, us = -seconds, -us\n", "        seconds, us = divmod(total_us, 10**6)\n        if total_us < 0 and us:\n            seconds, us = seconds + 1, us - 10**6\n")]),
     ("decode-varint-scans-buffer", ["C01", "C02", "C08", "C16", "C17", "C10"], [(I, "    with BytesIO(buffer) as stream:\n        stream.seek(pos)\n        value, raw = load_varint(stream)\n    return value, pos + len(raw)\n", "    result = 0\n    for shift in range(0, 64, 7):\n        if pos >= len(buffer):\n            raise EOFError(\"Buffer ended unexpectedly while attempting to decode varint.\")\n        b_int = buffer[pos]\n        pos += 1\n        result |= (b_int & 0x7F) << shift\n        if not (b_int & 0x80):\n            return result, pos\n    raise ValueError(\"Too many bytes when decoding varint.\")\n")]),
     ("key-single-byte-below-16", ["C01", "C02", "C09"], [(I, "        key = encode_varint(field_number << 3)\n", "        key = (field_number << 3).to_bytes(1, \"little\") if field_number < 16 else encode_varint(field_number << 3)\n")]),
     ("size-varint-threshold-chain", ["C09", "C16", "C10"], [(I, "    elif value < 0:\n        return 10\n    elif value == 0:\n        return 1\n    else:\n        return math.ceil(value.bit_length() / 7)\n", "    elif value < 0:\n        return 10\n    if value <= 0x7F:\n        return 1\n    if value <= 0x3FFF:\n        return 2\n    if value <= 0x1FFFFF:\n        return 3\n    if value <= 0xFFFFFFF:\n        return 4\n    if value <= 0x7FFFFFFFF:\n        return 5\n    if value <= 0x3FFFFFFFFFF:\n        return 6\n    if value <= 0x1FFFFFFFFFFFF:\n        return 7\n    if value <= 0xFFFFFFFFFFFFFF:\n        return 8\n    if value <= 0x7FFFFFFFFFFFFFFF:\n        return 9\n    return 10\n")]),
